@@ -270,7 +270,9 @@ func HeaderKeyBinding(key []byte, raw []byte) (*types.Header, bool) {
 		canon := H32(h.Hash())
 		return h, len(key) == 33 && (bytes.Equal(hash[:], key[1:]) || bytes.Equal(canon[:], key[1:]))
 	case 0x03:
-		if len(key) < 9 || h.Number == nil {
+		// the key is the selector and exactly eight bytes: a longer byte string is another key (another
+		// content id) and names no block number
+		if len(key) != 9 || h.Number == nil {
 			return h, false
 		}
 		n := new(big.Int).SetUint64(binary.LittleEndian.Uint64(key[1:9]))
